@@ -141,6 +141,9 @@ def roles(fn):
                 names[pat['ch'][1]['local']] = 'sum'
             if init.get('k') == 'MethodCall' and callee_is(init, *COUNT_SUM_HELPERS) and pat.get('k') == 'Binding':
                 helper_locals.add(pat['local'])
+                # the pair bound whole and read by projection: `r.0` is the count, `r.1` the sum
+                names[(pat['local'], '0')] = 'n'
+                names[(pat['local'], '1')] = 'sum'
             # `let n = r.0;` of a helper result bound to r
             if init.get('k') == 'Field' and peel(init['ch'][0]).get('local') in helper_locals and \
                     pat.get('k') == 'Binding':
@@ -325,15 +328,31 @@ def check_first(run, F):
         # the two cache assignments are independent: compare the effects as a multiset (the
         # counter is advanced after them on every row, which the row-wise presence shows)
         adv_last = all(not ef or 'AddAssign 1' in ef[-1] for cs, l, ef in t)
-        run.ob('AGG.first', fn, '%s: strict %s, first wins' % (fn.name, rel),
-               dtree.equiv(t, want, unordered=True) and adv_last,
+        # the position may also come from `.enumerate()` (a0 the position, a1 the element): the same
+        # table without the hand-advanced counter
+        it_ = None
+        if cl[0].get('k') == 'For':
+            it_ = peel(cl[0]['ch'][0])
+        else:
+            for y in walk(fn.hir):
+                if y.get('k') == 'MethodCall' and len(y.get('ch', [])) == 2 and peel(y['ch'][1]) is cl[0]:
+                    it_ = peel(y['ch'][0])
+        is_enum = it_ is not None and it_.get('k') == 'MethodCall' and callee_is(it_, 'Iterator::enumerate')
+        ok_tbl = dtree.equiv(t, want, unordered=True) and adv_last
+        if not ok_tbl and is_enum:
+            def ren(x):
+                return x.replace('a0', 'a1').replace('pos', 'a0')
+            want_e = N.T(*[([ren(c) for c in cs_], l_, [ren(e_) for e_ in ef_ if 'AddAssign' not in e_])
+                           for cs_, l_, ef_ in want])
+            ok_tbl = dtree.equiv(t, want_e, unordered=True)
+        run.ob('AGG.first', fn, '%s: strict %s, first wins' % (fn.name, rel), ok_tbl,
                fn.loc(), 'table %s' % dtree.show(t))
         # the function returns the cached index: the variable assigned Some(<position counter>)
         ft = N.tbl(fn)
         tail = N.one_leaf({(cs, l, ()) for cs, l, ef in ft})
         idxvars = {m.group(1) for cs, l, ef in t for e in ef
                    for m in [re.match(r'(\w+) = Some\((\w+)\)$', e)] if m and
-                   any(e2 == '%s AddAssign 1' % m.group(2) for e2 in ef)}
+                   (any(e2 == '%s AddAssign 1' % m.group(2) for e2 in ef) or (is_enum and m.group(2) == 'a0'))}
         run.ob('AGG.first', fn, '%s returns the cached index' % fn.name, len(idxvars) == 1 and dtree.unprime(tail or '') in idxvars,
                fn.loc(), 'returns %s (index cache %s)' % (tail, sorted(idxvars)))
     return n
